@@ -300,5 +300,129 @@ theorem indian_lawful : indian.Lawful InDayWin where
       have e2 : gy - 78 + 1 + 78 = gy + 1 := by omega
       rw [e1, e2]; constructor <;> omega
 
+/-! ### Persian: the 33-year rule with its table of corrections -/
+
+theorem persian_diy (y : Int) : persian.diy y = if persianLeap y then 366 else 365 := by
+  simp [ACal.diy, persian, ACal.before, persianDim]
+  split <;> omega
+
+/-- facts about the table, checked entry by entry -/
+theorem table_facts : ∀ t ∈ persianTable,
+    inTable (t - 1) = false ∧ inTable (t + 1) = false ∧ (8 * t + 21) % 33 ≥ 25 ∧ (8 * (t + 1) + 21) % 33 < 25 := by
+  decide +kernel
+
+theorem inTable_mem (y : Int) (h : inTable y = true) : y ∈ persianTable := by
+  unfold inTable at h; simpa using h
+
+theorem persian_year_len (y : Int) : persianStart33 (y + 1) - persianCorr (y + 1) =
+    persianStart33 y - persianCorr y + (if persianLeap y then 366 else 365) := by
+  unfold persianLeap persianCorr persianStart33
+  by_cases h1 : inTable y = true
+  · obtain ⟨a, _, c, _⟩ := table_facts y (inTable_mem y h1)
+    have e : y + 1 - 1 = y := by omega
+    simp only [h1, a, e, if_true, if_false, Bool.false_eq_true]
+    omega
+  · have h1' : inTable y = false := by simpa using h1
+    by_cases h2 : inTable (y - 1) = true
+    · obtain ⟨_, _, _, d⟩ := table_facts (y - 1) (inTable_mem _ h2)
+      have e : y + 1 - 1 = y := by omega
+      have e2 : y - 1 + 1 = y := by omega
+      rw [e2] at d
+      simp only [h1', h2, e, if_true, if_false, Bool.false_eq_true]
+      omega
+    · have h2' : inTable (y - 1) = false := by simpa using h2
+      have e : y + 1 - 1 = y := by omega
+      have k1 : (25 * y + 11) % 33 = 32 - (8 * y + 21) % 33 := by omega
+      simp only [h1', h2', e, if_false, Bool.false_eq_true, decide_eq_true_eq]
+      split <;> omega
+
+theorem persian33_bracket (n : Int) :
+    persianStart33 (1 + (33 * (n - PERSIAN_EPOCH) + 3) / 12053) ≤ n ∧
+    n < persianStart33 (1 + (33 * (n - PERSIAN_EPOCH) + 3) / 12053 + 1) := by
+  unfold persianStart33
+  constructor <;> omega
+
+theorem persian33_step (y : Int) : persianStart33 (y + 1) = persianStart33 y + 365 + (if (8 * y + 21) % 33 ≥ 25 then 1 else 0) := by
+  unfold persianStart33; split <;> omega
+
+theorem persian_lawful : persian.Lawful (fun _ => True) where
+  months_pos := by intro y; simp [persian]
+  dim_pos := by
+    intro y m _ _
+    simp only [persian, persianDim]
+    split <;> (try split) <;> (try split) <;> omega
+  year_len := by
+    intro y
+    rw [persian_diy]
+    simp only [persian]
+    exact persian_year_len y
+  yearOf_spec := by
+    intro n _
+    simp only [persian]
+    obtain ⟨b1, b2⟩ := persian33_bracket n
+    generalize 1 + (33 * (n - PERSIAN_EPOCH) + 3) / 12053 = y0 at *
+    have s1 := persian33_step y0
+    have s2 := persian33_step (y0 + 1)
+    by_cases hT : inTable y0 = true
+    · obtain ⟨a, a', c, d⟩ := table_facts y0 (inTable_mem y0 hT)
+      have c0 : persianCorr y0 = 0 := by simp [persianCorr, a]
+      have c1 : persianCorr (y0 + 1) = 1 := by
+        have e : y0 + 1 - 1 = y0 := by omega
+        simp [persianCorr, e, hT]
+      have c2 : persianCorr (y0 + 1 + 1) = 0 := by
+        have e : y0 + 1 + 1 - 1 = y0 + 1 := by omega
+        simp [persianCorr, e, a']
+      rw [if_pos c] at s1
+      by_cases h365 : n - (persianStart33 y0 - persianCorr y0) = 365
+      · rw [if_pos ⟨h365, hT⟩]
+        have : 0 ≤ (if (8 * (y0 + 1) + 21) % 33 ≥ 25 then (1 : Int) else 0) := by split <;> omega
+        constructor <;> omega
+      · rw [if_neg (fun h => h365 h.1)]
+        constructor <;> omega
+    · have hT' : inTable y0 = false := by simpa using hT
+      rw [if_neg (fun h => hT h.2)]
+      have c1 : persianCorr (y0 + 1) = 0 := by
+        have e : y0 + 1 - 1 = y0 := by omega
+        simp [persianCorr, e, hT']
+      have c0 : 0 ≤ persianCorr y0 := by unfold persianCorr; split <;> omega
+      constructor <;> omega
+
+/-! ### Every reported year is small: inside Temporal's range no calendar year reaches ±290000 -/
+
+/-- Days of Temporal's range. -/
+def InTemporalDays (n : Int) : Prop := -100000001 ≤ n ∧ n ≤ 100000000
+
+theorem copticLike_year_bound (e n : Int) (he : -720000 ≤ e ∧ e ≤ -490000) (hn : InTemporalDays n) :
+    -290000 ≤ (copticLike e).yearOf n ∧ (copticLike e).yearOf n ≤ 290000 := by
+  unfold InTemporalDays at hn
+  simp only [copticLike]; constructor <;> omega
+
+theorem islamicLike_year_bound (e n : Int) (he : -720000 ≤ e ∧ e ≤ -490000) (hn : InTemporalDays n) :
+    -290000 ≤ (islamicLike e).yearOf n ∧ (islamicLike e).yearOf n ≤ 290000 := by
+  unfold InTemporalDays at hn
+  simp only [islamicLike]; constructor <;> omega
+
+theorem ite_bounds (c : Prop) [Decidable c] (a b lo hi : Int) (h1 : lo ≤ a ∧ a ≤ hi) (h2 : lo ≤ b ∧ b ≤ hi) :
+    lo ≤ (if c then a else b) ∧ (if c then a else b) ≤ hi := by
+  by_cases h : c
+  · rw [if_pos h]; exact h1
+  · rw [if_neg h]; exact h2
+
+theorem persian_year_bound (n : Int) (hn : InTemporalDays n) :
+    -290000 ≤ persian.yearOf n ∧ persian.yearOf n ≤ 290000 := by
+  unfold InTemporalDays at hn
+  simp only [persian, PERSIAN_EPOCH]
+  apply ite_bounds <;> omega
+
+theorem indian_year_bound (n : Int) (hn : InTemporalDays n) :
+    -290000 ≤ indian.yearOf n ∧ indian.yearOf n ≤ 290000 := by
+  have hw : InDayWin n := by unfold InTemporalDays at hn; unfold InDayWin; omega
+  obtain ⟨b1, b2⟩ := greg_year_bracket n hw
+  unfold InTemporalDays at hn
+  simp only [indian]
+  generalize (NS.ymdFromEpochDays n).1 = gy at *
+  unfold Greg.yearStart at b1 b2
+  split <;> constructor <;> omega
+
 end Cal
 end TemporalModel
